@@ -8,7 +8,7 @@
 #include <stdint.h>
 #include <stdio.h>
 
-#define VP_MAX_IFACE 32
+#define VP_MAX_IFACE 256
 
 enum {
     GF_MTU = 1, GF_MAC = 2, GF_IFTYPE = 4, GF_IPV4 = 8, GF_IPV6 = 16, GF_SPEED = 32,
